@@ -43,6 +43,9 @@ class TlcResult:
 _STATS = re.compile(r"(\d+) states generated, (\d+) distinct states found")
 _DEPTH = re.compile(r"The depth of the complete state graph search is (\d+)")
 _VIOL = re.compile(r"Error: (?:Invariant|Action property|Temporal properties?) ?(\S*) (?:is|was|were) violated")
+# a wrong model variant can also make the EVALUATION of the property fail (index outside a domain) before a worker
+# reports the plain violation; with several workers which message comes first is a race.  Only negative controls read it.
+_EVALFAIL = re.compile(r"Error: Evaluating (?:invariant|action property) (\S+) failed")
 _COV = re.compile(r"^<(\w+) line \d+, col \d+ to line \d+, col \d+ of module (\w+)>: (\d+):(\d+)", re.M)
 
 
@@ -164,6 +167,10 @@ def expect_clean(r: TlcResult, what: str) -> TlcResult:
 def expect_violation(r: TlcResult, what: str, name: str | None = None) -> TlcResult:
     """Negative control: the deliberately wrong model variant must be rejected."""
     if r.violated is None:
+        m = _EVALFAIL.search(r.stdout)
+        if m and (name is None or name in m.group(1)):
+            r.violated = m.group(1) + " (evaluation failed)"
+            return r
         raise MachineryError(f"negative control {what}: TLC accepted a wrong model; tail:\n"
                              f"{r.stdout[-2000:]}")
     if name and name not in r.violated:
